@@ -544,6 +544,107 @@ func VerifyCover(P *Program, DB *ContractDB, cd *CoverDecl, prop string) *FuncRe
 
 // VerifyWrites enumerates every store to a field in the module: each must sit in
 // one of the listed functions, and the field's address must not escape.
+// VerifyPerCapture: the closure is created inside a loop, and every captured
+// variable the declaration names lives in a cell allocated inside the innermost
+// loop around the creation (one cell per iteration), or is captured by value.
+func VerifyPerCapture(P *Program, DB *ContractDB, pd *PerCaptureDecl, prop string) *FuncReport {
+	vc := NewVC(P, DB, nil, nil, prop)
+	vc.qname = "percapture " + pd.Closure
+	rep := &FuncReport{Func: vc.qname}
+	fn := P.Funcs[pd.Closure]
+	found := map[string]bool{}
+	sites := 0
+	if fn != nil && fn.Parent() != nil {
+		par := fn.Parent()
+		for _, b := range par.Blocks {
+			for _, in := range b.Instrs {
+				mc, ok := in.(*ssa.MakeClosure)
+				if !ok || mc.Fn != fn {
+					continue
+				}
+				sites++
+				loop := innermostLoop(par, b)
+				goal := "false"
+				if loop != nil {
+					goal = "true"
+				}
+				vc.oblige("writes", fmt.Sprintf("%s/%s/created-in-loop#%d", prop, vc.qname, sites), "the closure is created inside a loop", "true", goal, mc.Pos(), true)
+				for i, fv := range fn.FreeVars {
+					if len(pd.Vars) > 0 && !pd.Vars[fv.Name()] {
+						continue
+					}
+					found[fv.Name()] = true
+					bind := mc.Bindings[i]
+					goal := "true"
+					if al, isCell := bind.(*ssa.Alloc); isCell {
+						if loop == nil || !loop[al.Block()] {
+							goal = "false"
+						}
+					} else if _, isPtr := fv.Type().Underlying().(*types.Pointer); isPtr {
+						// a captured cell that is not a plain allocation of the parent (a φ-node,
+						// a parameter, another closure's cell): not known to be per iteration
+						if _, byValue := bind.(*ssa.Parameter); !byValue {
+							goal = "false"
+						}
+					}
+					vc.oblige("writes", fmt.Sprintf("%s/%s/own-copy[%s]#%d", prop, vc.qname, fv.Name(), sites), "captured variable "+fv.Name()+" is allocated in the loop iteration that creates the closure", "true", goal, mc.Pos(), true)
+				}
+			}
+		}
+	}
+	goal := "true"
+	if fn == nil || sites == 0 {
+		goal = "false"
+	}
+	for v := range pd.Vars {
+		if !found[v] {
+			goal = "false"
+		}
+	}
+	vc.oblige("writes", fmt.Sprintf("%s/%s/closure-and-variables-exist", prop, vc.qname), "the closure exists, is created somewhere, and captures the named variables", "true", goal, 0, true)
+	rep.Obligations = vc.obls
+	return rep
+}
+
+// innermostLoop: the blocks of the innermost natural loop of fn that contains b
+// (nil if b is in no loop).
+func innermostLoop(fn *ssa.Function, b *ssa.BasicBlock) map[*ssa.BasicBlock]bool {
+	var best map[*ssa.BasicBlock]bool
+	for _, h := range fn.Blocks {
+		body := map[*ssa.BasicBlock]bool{}
+		var stack []*ssa.BasicBlock
+		for _, p := range h.Preds {
+			if h.Dominates(p) { // back edge p -> h
+				if !body[p] {
+					body[p] = true
+					stack = append(stack, p)
+				}
+			}
+		}
+		if len(stack) == 0 {
+			continue
+		}
+		body[h] = true
+		for len(stack) > 0 {
+			x := stack[len(stack)-1]
+			stack = stack[:len(stack)-1]
+			if x == h {
+				continue
+			}
+			for _, p := range x.Preds {
+				if !body[p] {
+					body[p] = true
+					stack = append(stack, p)
+				}
+			}
+		}
+		if body[b] && (best == nil || len(body) < len(best)) {
+			best = body
+		}
+	}
+	return best
+}
+
 // VerifyNoWholeStore: every store of a whole value of the type goes into an
 // object allocated by the storing function itself.
 func VerifyNoWholeStore(P *Program, DB *ContractDB, nd *NoWholeStoreDecl, prop string) *FuncReport {
